@@ -749,6 +749,11 @@ def loop_suite(chk: Check) -> None:
     for i in range(runs):
         cfg = loop_config(rng, per=bool(i % 2), tier=chk.tier)
         res, differs = loop_case(chk, cfg)
+        if (res["learn_calls"] < 10 or res["calls_after_wrap"] < 5) and chk.violations:
+            # e.g. a buffer that never stores anything: already reported with a replay by the stream suite
+            chk.notes.append(f"train-loop suite skipped: {res['learn_calls']} learn calls on a tree that already "
+                             f"violates the property in the stream suite")
+            break
         if res["learn_calls"] < 10 or res["calls_after_wrap"] < 5:
             raise InfraError(f"C10 train-loop suite is blind: {res['learn_calls']} learn calls, "
                              f"{res['calls_after_wrap']} after wrap-around for {cfg}")
@@ -787,6 +792,23 @@ def loop_suite(chk: Check) -> None:
     chk.suite("train-loop", runs, ndiff)
 
 
+# ----------------------------------------------------------------------------- source translation
+def pre_gate(chk: Check) -> None:
+    """regenerate lean/Gen/NStepGen.lean from the source text of the tree under test and re-check
+    `generated = model` and the theorems over the generated definitions"""
+    import common
+    import py2lean_nstep
+    what = "MultiStepReplayBuffer.add / _get_n_step_info"
+    # first the equalities alone, so that a broken equality is named (Props.C10 also imports Props.C09 and
+    # with it the translation of ReplayBuffer.add, whose errors would otherwise come first in the log) …
+    common.translation_gate(chk, py2lean_nstep, "Gen/NStepGen.lean", ["Gen.NStepGen", "Proofs.NStepGenEq"], what)
+    info = chk.corr.get("source_translation", {}).get("Gen/NStepGen.lean", {})
+    if info.get("status") == "equal-to-model":
+        # … then the theorems restated over the generated definitions
+        common.translation_gate(chk, py2lean_nstep, "Gen/NStepGen.lean",
+                                ["Gen.NStepGen", "Proofs.NStepGenEq", "Props.C10"], what)
+
+
 # ----------------------------------------------------------------------------- check
 def run(chk: Check) -> None:
     rng = chk.rng
@@ -806,6 +828,10 @@ def run(chk: Check) -> None:
         "C10_unequal_capacities_witness)",
         "rewards and discounts are dyadic, so float32 arithmetic is exact and compared with exact rationals",
     ]
+    chk.trusted_extra.append("harness/py2lean_nstep.py (translator of MultiStepReplayBuffer.add / _get_n_step_info; its "
+                             "output is proved equal to the model in Proofs/NStepGenEq.lean) and its fixed prelude: "
+                             "TensorDict as five per-environment vectors, element-wise tensor arithmetic, "
+                             "deque(maxlen).append, .clone()/.to(device) as identity")
     cases = []
     for f in sorted((ROOT / "corpus" / "C10").glob("*.json")):
         c = json.loads(f.read_text())
